@@ -4,7 +4,7 @@
    blanks; [decorate]; what parser.ReadPeek hands on ([significant], [annotations]).
    Model/DecorSites.v: the audited list of sites that render a node to text. *)
 From Coq Require Import List NArith String.
-From Falco Require Import Gen.StringSites Model.Decor Model.DecorSites Proofs.DecorProofs.
+From Falco Require Import Gen.StringSites Gen.MetaReads Model.Decor Model.DecorSites Model.DecorReads Proofs.DecorProofs.
 From Falco Require Import Base.Res Gen.Tokens Model.Lex Model.Pump Proofs.DecorReal.
 From Falco Require Model.ParseBase Model.ParseDecl Model.Ast Model.Yield Proofs.ParseDeclYield.
 Import ListNotations.
@@ -115,6 +115,17 @@ Theorem C09_real_insert_comment :
   decorate (absS is_ann e (t1 ++ t2)) (absS is_ann e (t1 ++ c :: t2)).
 Proof. exact real_insert_comment. Qed.
 
+(* T tie: the reads of comment / layout / position carrying fields in linter/ and interpreter/, regenerated with
+   go/types, are exactly the audited ones; each belongs to a documented consumer (positions only where a position
+   is reported; comments only by the ignore / annotation / macro / mark readers); no pure layout field
+   (PreviousEmptyLines, PrefixedLineFeed, Nest, EndLine, EndPosition, Offset) is read at all *)
+Theorem C09_meta_reads_audited :
+  meta_reads = map fst audited_reads /\
+  forallb consistent_read audited_reads = true /\
+  existsb reads_layout meta_reads = false.
+Proof. split; [reflexivity | split; reflexivity]. Qed.
+
+Print Assumptions C09_meta_reads_audited.
 Print Assumptions C09_pump_refines_decor.
 Print Assumptions C09_pump_strip_real.
 Print Assumptions C09_parse_inert_real.
